@@ -37,7 +37,11 @@
 #endif
 #define KH (K + PREFILL)
 typedef uint64_t addr_t;
+#if POLICY == 4
+#define PAGE 512u        /* page == superblock == slab: a large block starts exactly on the next superblock boundary */
+#else
 #define PAGE 64u
+#endif
 #define SB 512u
 #define HDR_SLAB 104u      /* sizeof(slab_frame) */
 #define HDR_FRAME 40u      /* sizeof(frame)      */
@@ -163,6 +167,7 @@ static void check_block(int i) {
 	/* required alignment = request rounded up to a power of two, at least 8, capped at the page size.  Branch-free form: the largest
 	 * power of two al in {8,16,32,64} with al/2 < req (or 8) */
 	uint64_t al = 8 + 8 * (req > 8) + 16 * (req > 16) + 32 * (req > 32);
+	if(PAGE > 64) al += 64 * (req > 64) + 128 * (req > 128);     /* cap at the page size */
 	VP_ASSERT((p & (al - 1)) == 0, "block is not aligned to the request rounded up to a power of two (min 8, max page size)");
 	int m = -1; for(int j = 0; j < MAXMAPS; j++) if(j < nmaps && maps[j].live && p >= maps[j].base && p + sz <= maps[j].base + maps[j].len) m = j;
 	VP_ASSERT(m >= 0, "block does not lie wholly inside memory obtained from the policy and not given back");
